@@ -190,7 +190,9 @@ func scan(root string) ([]*Member, error) {
 					m.TParams = countFields(d.Type.TypeParams)
 				}
 				if m.N < 0 && m.RecvN < 0 {
-					continue
+					if !(m.Recv == "" && baseNames[m.Name] && (pkg == "option" || pkg == "try" || pkg == "future")) {
+						continue
+					}
 				}
 				out = append(out, m)
 			}
@@ -230,11 +232,56 @@ type G struct {
 	// typeOnly: this driver is only type-checked (go vet of zz/<pkg>_dtypes in prebuild.sh),
 	// not compiled into the harness binary; see the comment at ruleBuilder.
 	typeOnly bool
+	// nilM: the nilable instantiation (see nilTypes); closers counts the loop braces vals opened
+	nilM    bool
+	closers int
 	have map[string]*Member
 	imp  map[string]bool
 }
 
+// nilTypes: argument types of the nilable instantiation, by position.
+var nilTypes = []string{"*int", "[]int", "map[string]int", "func() int", "any"}
+
+func (g *G) nilVal(i int) string {
+	v := 100*i + 1
+	switch (i - 1) % 5 {
+	case 0:
+		return fmt.Sprintf("PtrI(%d)", v)
+	case 1:
+		return fmt.Sprintf("[]int{%d}", v)
+	case 2:
+		return fmt.Sprintf("map[string]int{\"k\": %d}", v)
+	case 3:
+		return fmt.Sprintf("Fn(%d)", v)
+	}
+	return fmt.Sprintf("any(%d)", v)
+}
+
+func (g *G) R() string {
+	if g.nilM {
+		return "*PR"
+	}
+	return "PR"
+}
+
+func (g *G) call(args string) string {
+	if g.nilM {
+		return fmt.Sprintf("t.CallP(\"f\", nilRes%s)", commaPrefix(args))
+	}
+	return fmt.Sprintf("t.Call(\"f\"%s)", commaPrefix(args))
+}
+
+func (g *G) res(args string) string {
+	if g.nilM {
+		return fmt.Sprintf("ResP(\"f\", nilRes%s)", commaPrefix(args))
+	}
+	return fmt.Sprintf("Res(\"f\"%s)", commaPrefix(args))
+}
+
 func (g *G) T(i int) string {
+	if g.nilM {
+		return nilTypes[(i-1)%5]
+	}
 	if g.rev > 0 && i >= 1 && i <= g.rev {
 		i = g.rev - i + 1
 	}
@@ -283,6 +330,26 @@ func (g *G) Bdecl(lo, hi int) string {
 
 // vals declares the position-tagged values a_lo..a_hi.
 func (g *G) vals(lo, hi int) {
+	if g.nilM {
+		// one-hot nil walk: hot = 0 none, 1..hi argument hot is nil, hi+1 the callback returns nil
+		g.pf("for hot := 0; hot <= %d; hot++ {", hi+1)
+		g.closers++
+		g.pf("nilRes := hot == %d", hi+1)
+		g.pf("_ = nilRes")
+		g.pf("t.Hot(hot, %d)", hi)
+		for i := lo; i <= hi; i++ {
+			g.pf("a%d := %s", i, g.nilVal(i))
+		}
+		if hi >= lo {
+			g.pf("switch hot {")
+			for i := lo; i <= hi; i++ {
+				g.pf("case %d:", i)
+				g.pf("a%d = nil", i)
+			}
+			g.pf("}")
+		}
+		return
+	}
 	if g.rev == 0 {
 		g.rev = hi
 	}
@@ -293,7 +360,7 @@ func (g *G) vals(lo, hi int) {
 
 // f declares the tagged n-ary callback `name` over parameter positions lo..hi returning PR.
 func (g *G) fn(name string, lo, hi int) {
-	g.pf("%s := func(%s) PR { return t.Call(%q%s) }", name, g.Bdecl(lo, hi), "f", commaPrefix(Bs(lo, hi)))
+	g.pf("%s := func(%s) %s { return %s }", name, g.Bdecl(lo, hi), g.R(), g.call(Bs(lo, hi)))
 }
 
 func commaPrefix(s string) string {
@@ -388,6 +455,13 @@ type rule func(g *G, m *Member) bool
 
 var rules = map[string]rule{}
 
+// nilOK: families that also get the nilable instantiation.
+var nilOK = map[string]bool{}
+
+// baseNames: members of the effectful packages that are not arity-indexed but belong to the
+// Flap family (arity 1 / 2 of FlapN / MethodN).
+var baseNames = map[string]bool{"Flap": true, "FlapMap": true, "FlatFlapMap": true, "With": true}
+
 func init() {
 	// ---- fp: products
 	for _, kind := range []string{"Tuple", "Labelled"} {
@@ -468,6 +542,17 @@ func init() {
 			v := v
 			rules[p+".MonadChainN."+v] = func(g *G, m *Member) bool { return ruleBuilder(g, m, mo, "Chain", v) }
 		}
+		for b := range baseNames {
+			rules[p+"."+b] = func(g *G, m *Member) bool { return ruleBase(g, m, mo) }
+		}
+		for f := range rules {
+			if strings.HasPrefix(f, p+".") {
+				nilOK[f] = true
+			}
+		}
+	}
+	for _, f := range []string{"option.PureN", "try.PureN", "try.FuncN", "try.UnitN", "try.CurriedN", "try.CurriedPureN", "try.CurriedUnitN", "future.FuncN", "future.UnitN"} {
+		nilOK[f] = true
 	}
 	rules["option.PureN"] = func(g *G, m *Member) bool { return ruleMFunc(g, m, monads[0], "pure", false) }
 	rules["try.PureN"] = func(g *G, m *Member) bool { return ruleMFunc(g, m, monads[1], "pure", false) }
@@ -590,7 +675,7 @@ func ruleProductLift(g *G, m *Member) bool {
 	g.vals(1, n)
 	g.fn("f", 1, n)
 	g.pf("got := product.%s(f)(%s)", m.Name, g.tupLit("Tuple", 1, n, av))
-	g.pf("t.Eq(%q, got, Res(\"f\", %s))", m.Name+"(f)(tuple)", A(1, n))
+	g.pf("t.Eq(%q, got, %s)", m.Name+"(f)(tuple)", g.res(A(1, n)))
 	g.pf("t.LogIs(\"calls\", Ent(\"f\", %s))", A(1, n))
 	return true
 }
@@ -598,7 +683,7 @@ func ruleProductLift(g *G, m *Member) bool {
 // ---- plain functions
 
 func fpFuncConv(g *G, n int) string {
-	return fmt.Sprintf("fp.Func%d[%s, PR]", n, g.Ts(1, n))
+	return fmt.Sprintf("fp.Func%d[%s, %s]", n, g.Ts(1, n), g.R())
 }
 
 func ruleApplyFirst(g *G, m *Member) bool {
@@ -610,7 +695,7 @@ func ruleApplyFirst(g *G, m *Member) bool {
 	g.vals(1, n)
 	g.pf("f := %s(func(%s) PR { return t.Call(\"f\", %s) })", fpFuncConv(g, n), g.Bdecl(1, n), Bs(1, n))
 	g.pf("got := f.%s(%s)(a%d)", m.Name, A(1, n-1), n)
-	g.pf("t.Eq(%q, got, Res(\"f\", %s))", "f."+m.Name+"(a1..)(aN)", A(1, n))
+	g.pf("t.Eq(%q, got, %s)", "f."+m.Name+"(a1..)(aN)", g.res(A(1, n)))
 	g.pf("t.LogIs(\"calls\", Ent(\"f\", %s))", A(1, n))
 	return true
 }
@@ -624,7 +709,7 @@ func ruleApplyLast(g *G, m *Member) bool {
 	g.vals(1, n)
 	g.pf("f := %s(func(%s) PR { return t.Call(\"f\", %s) })", fpFuncConv(g, n), g.Bdecl(1, n), Bs(1, n))
 	g.pf("got := f.%s(%s)(a1)", m.Name, A(2, n))
-	g.pf("t.Eq(%q, got, Res(\"f\", %s))", "f."+m.Name+"(a2..)(a1)", A(1, n))
+	g.pf("t.Eq(%q, got, %s)", "f."+m.Name+"(a2..)(a1)", g.res(A(1, n)))
 	g.pf("t.LogIs(\"calls\", Ent(\"f\", %s))", A(1, n))
 	return true
 }
@@ -638,7 +723,7 @@ func ruleWiden(g *G, m *Member) bool {
 	g.vals(1, n)
 	g.pf("f := %s(func(%s) PR { return t.Call(\"f\", %s) })", fpFuncConv(g, n), g.Bdecl(1, n), Bs(1, n))
 	g.pf("got := f.Widen()(%s)", A(1, n))
-	g.pf("t.Eq(%q, got, Res(\"f\", %s))", "f.Widen()(a1..)", A(1, n))
+	g.pf("t.Eq(%q, got, %s)", "f.Widen()(a1..)", g.res(A(1, n)))
 	g.pf("t.LogIs(\"calls\", Ent(\"f\", %s))", A(1, n))
 	return true
 }
@@ -659,6 +744,9 @@ func ruleCompose(g *G, m *Member, mo *monad) bool {
 	n := m.N
 	if n < 2 || m.TParams != n+1 || m.Params < n {
 		return false
+	}
+	if g.nilM {
+		return ruleComposeNil(g, m, mo)
 	}
 	g.use("fp", m.Pkg)
 	g.pf("a1 := %s(1)", g.T(1))
@@ -684,6 +772,83 @@ func ruleCompose(g *G, m *Member, mo *monad) bool {
 	g.pf("got := %s", call)
 	g.pf("t.Eq(%q, got, %s(%d))", m.Name+"(f1..)(a1)", g.T(n+1), w)
 	g.pf("t.LogIs(\"calls\", %s)", strings.Join(wl, ", "))
+	return true
+}
+
+// ruleComposeNil: Kleisli composition over nilable types; stage i maps the value of position i
+// to the value of position i+1, so the one-hot walk makes the input (hot = 1) or the result
+// of stage hot-1 nil; a nil must travel through the later stages and come out as M(nil).
+func ruleComposeNil(g *G, m *Member, mo *monad) bool {
+	if mo == nil {
+		return false
+	}
+	n := m.N
+	g.use("fp", m.Pkg)
+	g.use(mo.deps...)
+	g.vals(1, n+1)
+	var fs, wl []string
+	for i := 1; i <= n; i++ {
+		g.pf("f%d := func(b %s) %s[%s] { t.Rec(\"f%d\", b); return %s }", i, g.T(i), mo.typ, g.T(i+1), i, mo.pure(av(i+1)))
+		fs = append(fs, fmt.Sprintf("f%d", i))
+		wl = append(wl, fmt.Sprintf("Ent(\"f%d\", a%d)", i, i))
+	}
+	g.pf("got := %s(t, %q, %s.%s(%s%s)(a1))", mo.val, m.Name+"(f1..)(a1)", m.Pkg, m.Name, strings.Join(fs, ", "), ex(m))
+	g.pf("t.Eq(%q, got, a%d)", m.Name+"(f1..)(a1)", n+1)
+	g.pf("t.LogIs(\"calls\", %s)", strings.Join(wl, ", "))
+	return true
+}
+
+// base members of the Flap family that are not arity-indexed (arity 1 / 2): Flap, FlapMap,
+// FlatFlapMap, With.
+func ruleBase(g *G, m *Member, mo *monad) bool {
+	g.use(mo.deps...)
+	g.use(m.Pkg, "fp")
+	switch m.Name {
+	case "Flap":
+		if m.TParams != 2 {
+			return false
+		}
+		g.vals(1, 1)
+		g.pf("var cf fp.Func1[%s, %s] = func(b1 %s) %s { return %s }", g.T(1), g.R(), g.T(1), g.R(), g.call("b1"))
+		g.pf("got := %s(t, \"Flap\", %s.Flap(%s%s)(a1))", mo.val, m.Pkg, mo.pure("cf"), ex(m))
+		g.pf("t.Eq(\"Flap(M(f))(a1)\", got, %s)", g.res("a1"))
+		g.pf("t.LogIs(\"calls\", Ent(\"f\", a1))")
+	case "FlapMap", "FlatFlapMap":
+		if m.TParams != 3 {
+			return false
+		}
+		g.vals(1, 2)
+		if m.Name == "FlapMap" {
+			g.fn("f", 1, 2)
+		} else {
+			g.pf("f := func(%s) %s[%s] { return %s }", g.Bdecl(1, 2), mo.typ, g.R(), mo.pure(g.call(Bs(1, 2))))
+		}
+		g.pf("got := %s(t, %q, %s.%s(f, %s%s)(a2))", mo.val, m.Name, m.Pkg, m.Name, mo.pure("a1"), ex(m))
+		g.pf("t.Eq(%q, got, %s)", m.Name+"(f, M(a1))(a2)", g.res("a1, a2"))
+		g.pf("t.LogIs(\"calls\", Ent(\"f\", a1, a2))")
+	case "With":
+		if m.TParams != 2 {
+			return false
+		}
+		// With(withf, M(b))(a) = M(withf(a, b)); withf returns a value of a's type: position 3
+		// carries the result (same nilable type as position 1 is not required: use type of a1)
+		g.vals(1, 2)
+		g.pf("r := %s", func() string {
+			if g.nilM {
+				return g.nilVal(1 + 5) // same type as position 1, different tag
+			}
+			return fmt.Sprintf("%s(777)", g.T(1))
+		}())
+		if g.nilM {
+			g.pf("if nilRes { r = nil }")
+		}
+		g.pf("withf := func(b1 %s, b2 %s) %s { t.Rec(\"f\", b1, b2); return r }", g.T(1), g.T(2), g.T(1))
+		g.pf("got := %s(t, \"With\", %s.With(withf, %s%s)(a1))", mo.val, m.Pkg, mo.pure("a2"), ex(m))
+		g.pf("t.Eq(\"With(withf, M(a2))(a1)\", got, r)")
+		g.pf("t.LogIs(\"calls\", Ent(\"f\", a1, a2))")
+	default:
+		return false
+	}
 	return true
 }
 
@@ -722,7 +887,7 @@ func ruleCurry(g *G, m *Member) bool {
 	g.pf("var c %s = %s.%s(f)", g.curT(seqI(1, n), "PR"), m.Pkg, m.Name)
 	g.pf("t.LogIs(\"calls before application\")")
 	g.pf("got := c%s", curCall(seqI(1, n)))
-	g.pf("t.Eq(%q, got, Res(\"f\", %s))", m.Name+"(f)(a1)..(aN)", A(1, n))
+	g.pf("t.Eq(%q, got, %s)", m.Name+"(f)(a1)..(aN)", g.res(A(1, n)))
 	g.pf("t.LogIs(\"calls\", Ent(\"f\", %s))", A(1, n))
 	return true
 }
@@ -736,7 +901,7 @@ func ruleUnTupled(g *G, m *Member) bool {
 	g.vals(1, n)
 	g.pf("f := func(tp %s) PR { return t.Call(\"f\", %s) }", g.tupT("Tuple", 1, n), list(1, n, func(i int) string { return fmt.Sprintf("tp.I%d", i) }))
 	g.pf("got := as.%s(f)(%s)", m.Name, A(1, n))
-	g.pf("t.Eq(%q, got, Res(\"f\", %s))", m.Name+"(f)(a1..)", A(1, n))
+	g.pf("t.Eq(%q, got, %s)", m.Name+"(f)(a1..)", g.res(A(1, n)))
 	g.pf("t.LogIs(\"calls\", Ent(\"f\", %s))", A(1, n))
 	return true
 }
@@ -750,7 +915,7 @@ func ruleTupled(g *G, m *Member) bool {
 	g.vals(1, n)
 	g.fn("f", 1, n)
 	g.pf("got := as.%s(%s(f))(%s)", m.Name, fpFuncConv(g, n), g.tupLit("Tuple", 1, n, av))
-	g.pf("t.Eq(%q, got, Res(\"f\", %s))", m.Name+"(f)(tuple)", A(1, n))
+	g.pf("t.Eq(%q, got, %s)", m.Name+"(f)(tuple)", g.res(A(1, n)))
 	g.pf("t.LogIs(\"calls\", Ent(\"f\", %s))", A(1, n))
 	return true
 }
@@ -805,9 +970,9 @@ func ruleRevert(g *G, m *Member) bool {
 	}
 	g.use("fp", "curried")
 	g.vals(1, n)
-	g.curriedF(n, "PR", fmt.Sprintf("t.Call(\"f\", %s)", Bs(1, n)))
+	g.curriedF(n, g.R(), g.call(Bs(1, n)))
 	g.pf("got := curried.%s(cf)(%s)", m.Name, A(1, n))
-	g.pf("t.Eq(%q, got, Res(\"f\", %s))", m.Name+"(cf)(a1..)", A(1, n))
+	g.pf("t.Eq(%q, got, %s)", m.Name+"(cf)(a1..)", g.res(A(1, n)))
 	g.pf("t.LogIs(\"calls\", Ent(\"f\", %s))", A(1, n))
 	return true
 }
@@ -820,11 +985,11 @@ func ruleFlip(g *G, m *Member) bool {
 	}
 	g.use("fp", "curried")
 	g.vals(1, n)
-	g.curriedF(n, "PR", fmt.Sprintf("t.Call(\"f\", %s)", Bs(1, n)))
+	g.curriedF(n, g.R(), g.call(Bs(1, n)))
 	order := append(seqI(2, n), 1)
 	g.pf("var c %s = curried.%s(cf)", g.curT(order, "PR"), m.Name)
 	g.pf("got := c%s", curCall(order))
-	g.pf("t.Eq(%q, got, Res(\"f\", %s))", m.Name+"(cf)(a2)..(aN)(a1)", A(1, n))
+	g.pf("t.Eq(%q, got, %s)", m.Name+"(cf)(a2)..(aN)(a1)", g.res(A(1, n)))
 	g.pf("t.LogIs(\"calls\", Ent(\"f\", %s))", A(1, n))
 	return true
 }
@@ -837,9 +1002,9 @@ func ruleFlipApply(g *G, m *Member) bool {
 	}
 	g.use("fp", "curried")
 	g.vals(1, n)
-	g.curriedF(n, "PR", fmt.Sprintf("t.Call(\"f\", %s)", Bs(1, n)))
+	g.curriedF(n, g.R(), g.call(Bs(1, n)))
 	g.pf("got := curried.%s(cf, %s)(a1)", m.Name, A(2, n))
-	g.pf("t.Eq(%q, got, Res(\"f\", %s))", m.Name+"(cf, a2..)(a1)", A(1, n))
+	g.pf("t.Eq(%q, got, %s)", m.Name+"(cf, a2..)(a1)", g.res(A(1, n)))
 	g.pf("t.LogIs(\"calls\", Ent(\"f\", %s))", A(1, n))
 	return true
 }
@@ -852,11 +1017,11 @@ func ruleSlipL(g *G, m *Member) bool {
 	}
 	g.use("fp", "curried")
 	g.vals(1, n)
-	g.curriedF(n, "PR", fmt.Sprintf("t.Call(\"f\", %s)", Bs(1, n)))
+	g.curriedF(n, g.R(), g.call(Bs(1, n)))
 	order := append([]int{n}, seqI(1, n-1)...)
 	g.pf("var c %s = curried.%s(cf)", g.curT(order, "PR"), m.Name)
 	g.pf("got := c%s", curCall(order))
-	g.pf("t.Eq(%q, got, Res(\"f\", %s))", m.Name+"(cf)(aN)(a1)..(aN-1)", A(1, n))
+	g.pf("t.Eq(%q, got, %s)", m.Name+"(cf)(aN)(a1)..(aN-1)", g.res(A(1, n)))
 	g.pf("t.LogIs(\"calls\", Ent(\"f\", %s))", A(1, n))
 	return true
 }
@@ -1041,7 +1206,7 @@ func ruleLift(g *G, m *Member, mo *monad, flat bool, shape string) bool {
 	g.use(m.Pkg)
 	g.vals(1, n)
 	if flat {
-		g.pf("f := func(%s) %s[PR] { return %s }", g.Bdecl(1, n), mo.typ, mo.pure(fmt.Sprintf("t.Call(\"f\", %s)", Bs(1, n))))
+		g.pf("f := func(%s) %s[%s] { return %s }", g.Bdecl(1, n), mo.typ, g.R(), mo.pure(g.call(Bs(1, n))))
 	} else {
 		g.fn("f", 1, n)
 	}
@@ -1053,7 +1218,7 @@ func ruleLift(g *G, m *Member, mo *monad, flat bool, shape string) bool {
 		call = fmt.Sprintf("%s.%s(%s, f%s)", m.Pkg, m.Name, ms, ex(m))
 	}
 	g.pf("got := %s(t, %q, %s)", mo.val, m.Name, call)
-	g.pf("t.Eq(%q, got, Res(\"f\", %s))", m.Name+" on successes", A(1, n))
+	g.pf("t.Eq(%q, got, %s)", m.Name+" on successes", g.res(A(1, n)))
 	g.pf("t.LogIs(\"calls\", Ent(\"f\", %s))", A(1, n))
 	return true
 }
@@ -1080,10 +1245,10 @@ func ruleFlap(g *G, m *Member, mo *monad) bool {
 	g.use(mo.deps...)
 	g.use(m.Pkg)
 	g.vals(1, n)
-	g.curriedF(n, "PR", fmt.Sprintf("t.Call(\"f\", %s)", Bs(1, n)))
-	g.pf("var c %s = %s.%s(%s%s)", g.curT(seqI(1, n), mo.typ+"[PR]"), m.Pkg, m.Name, mo.pure("cf"), ex(m))
+	g.curriedF(n, g.R(), g.call(Bs(1, n)))
+	g.pf("var c %s = %s.%s(%s%s)", g.curT(seqI(1, n), mo.typ+"["+g.R()+"]"), m.Pkg, m.Name, mo.pure("cf"), ex(m))
 	g.pf("got := %s(t, %q, c%s)", mo.val, m.Name, curCall(seqI(1, n)))
-	g.pf("t.Eq(%q, got, Res(\"f\", %s))", m.Name+"(M(cf))(a1)..(aN)", A(1, n))
+	g.pf("t.Eq(%q, got, %s)", m.Name+"(M(cf))(a1)..(aN)", g.res(A(1, n)))
 	g.pf("t.LogIs(\"calls\", Ent(\"f\", %s))", A(1, n))
 	return true
 }
@@ -1098,13 +1263,13 @@ func ruleMethod(g *G, m *Member, mo *monad, flat bool) bool {
 	g.use(m.Pkg)
 	g.vals(1, k)
 	if flat {
-		g.pf("f := func(%s) %s[PR] { return %s }", g.Bdecl(1, k), mo.typ, mo.pure(fmt.Sprintf("t.Call(\"f\", %s)", Bs(1, k))))
+		g.pf("f := func(%s) %s[%s] { return %s }", g.Bdecl(1, k), mo.typ, g.R(), mo.pure(g.call(Bs(1, k))))
 	} else {
 		g.fn("f", 1, k)
 	}
-	g.pf("var c func(%s) %s[PR] = %s.%s(%s, f%s)", g.Ts(2, k), mo.typ, m.Pkg, m.Name, mo.pure("a1"), ex(m))
+	g.pf("var c func(%s) %s[%s] = %s.%s(%s, f%s)", g.Ts(2, k), mo.typ, g.R(), m.Pkg, m.Name, mo.pure("a1"), ex(m))
 	g.pf("got := %s(t, %q, c(%s))", mo.val, m.Name, A(2, k))
-	g.pf("t.Eq(%q, got, Res(\"f\", %s))", m.Name+"(M(a1), f)(a2..)", A(1, k))
+	g.pf("t.Eq(%q, got, %s)", m.Name+"(M(a1), f)(a2..)", g.res(A(1, k)))
 	g.pf("t.LogIs(\"calls\", Ent(\"f\", %s))", A(1, k))
 	return true
 }
@@ -1121,13 +1286,16 @@ func ruleMFunc(g *G, m *Member, mo *monad, kind string, cur bool) bool {
 	g.use(mo.deps...)
 	g.use(m.Pkg)
 	g.vals(1, n)
-	callF := fmt.Sprintf("t.Call(\"f\"%s)", commaPrefix(Bs(1, n)))
-	rt := "PR"
+	if g.nilM && kind == "ptr" {
+		return false // PtrN documents nil -> failure; its defining equation is not a nil-preserving one
+	}
+	callF := g.call(Bs(1, n))
+	rt := g.R()
 	switch kind {
 	case "pure":
-		g.pf("f := func(%s) PR { return %s }", g.Bdecl(1, n), callF)
+		g.pf("f := func(%s) %s { return %s }", g.Bdecl(1, n), rt, callF)
 	case "func":
-		g.pf("f := func(%s) (PR, error) { return %s, nil }", g.Bdecl(1, n), callF)
+		g.pf("f := func(%s) (%s, error) { return %s, nil }", g.Bdecl(1, n), rt, callF)
 	case "unit":
 		g.pf("f := func(%s) error { %s; return nil }", g.Bdecl(1, n), callF)
 		rt = "fp.Unit"
@@ -1137,7 +1305,7 @@ func ruleMFunc(g *G, m *Member, mo *monad, kind string, cur bool) bool {
 	targs := ""
 	if cur && kind == "unit" && m.TParams == n+1 {
 		// the library declares an unused result type parameter here; it cannot be inferred
-		targs = fmt.Sprintf("[%s, PR]", g.Ts(1, n))
+		targs = fmt.Sprintf("[%s, %s]", g.Ts(1, n), g.R())
 	}
 	var call string
 	switch {
@@ -1153,7 +1321,7 @@ func ruleMFunc(g *G, m *Member, mo *monad, kind string, cur bool) bool {
 	if kind == "unit" {
 		g.pf("t.Eq(%q, got, fp.Unit{})", m.Name+"(f)(a1..)")
 	} else {
-		g.pf("t.Eq(%q, got, Res(\"f\"%s))", m.Name+"(f)(a1..)", commaPrefix(A(1, n)))
+		g.pf("t.Eq(%q, got, %s)", m.Name+"(f)(a1..)", g.res(A(1, n)))
 	}
 	g.pf("t.LogIs(\"calls\", Ent(\"f\"%s))", commaPrefix(A(1, n)))
 	return true
@@ -1192,10 +1360,10 @@ func (g *G) chain(mo *monad, builder string, M int, steps []string, what string)
 			ht = g.T(j - 1)
 			hv = av(j - 1)
 		}
-		hT := g.consT(seqI(j-1, 1))
-		hV := consV(seqI(j-1, 1))
-		if j == 1 {
-			hT, hV = "hlist.Nil", "hlist.Empty()"
+		hT, hV := "hlist.Nil", "hlist.Empty()"
+		if j > 1 {
+			hT = g.consT(seqI(j-1, 1))
+			hV = consV(seqI(j-1, 1))
 		}
 		switch v {
 		case "Ap":
@@ -1236,7 +1404,7 @@ func (g *G) chain(mo *monad, builder string, M int, steps []string, what string)
 	}
 	g.pf("{")
 	g.pf("got := %s(t, %q, %s)", mo.val, what, sb.String())
-	g.pf("t.Eq(%q, got, Res(\"f\", %s))", what, A(1, M))
+	g.pf("t.Eq(%q, got, %s)", what, g.res(A(1, M)))
 	g.pf("t.LogSetThen(%q, []string{%s}, Ent(\"f\", %s))", what+" callbacks", strings.Join(set, ", "), A(1, M))
 	g.pf("}")
 	return true
@@ -1254,7 +1422,12 @@ func ruleBuilder(g *G, m *Member, mo *monad, builder, v string) bool {
 	// prefix-indexed types here: the accumulated hlist of a builder is a prefix of the
 	// arguments, so its type is shared by the chains of all arities
 	g.rev = -1
-	g.typeOnly = !g.intM
+	g.typeOnly = !g.intM && !g.nilM
+	if g.nilM && (mo.pkg == "future" || v == "HListMap" || v == "HListFlatMap") {
+		// future: a third set of builder instantiations is not worth its compile time; HList callbacks: the
+		// accumulated hlist has unexported fields, its nilable components cannot be described
+		return false
+	}
 	g.use(mo.deps...)
 	g.use(mo.pkg, "fp", "hlist")
 	if v == "" {
@@ -1270,7 +1443,9 @@ func ruleBuilder(g *G, m *Member, mo *monad, builder, v string) bool {
 			return false
 		}
 		if builder == "Chain" {
-			g.chain(mo, builder, K, uniform(K, nil, "HListMap"), m.Name+"(f).HListMap(..)..")
+			if !g.nilM {
+				g.chain(mo, builder, K, uniform(K, nil, "HListMap"), m.Name+"(f).HListMap(..)..")
+			}
 			g.chain(mo, builder, K, uniform(K, nil, "Map"), m.Name+"(f).Map(..)..")
 		}
 		return true
@@ -1427,7 +1602,7 @@ func fix(logPath, outDir, stubsPath string) int {
 }
 
 type entry struct {
-	fam, name, d, i string
+	fam, name, d, i, nl string
 	n, arity        int
 }
 
@@ -1515,16 +1690,23 @@ func main() {
 			continue
 		}
 		any := false
-		for _, intM := range []bool{false, true} {
-			g := &G{intM: intM, have: have, imp: map[string]bool{}}
+		for _, md := range []string{"D", "I", "N"} {
+			if md == "N" && !nilOK[m.Family()] {
+				continue
+			}
+			intM := md == "I"
+			g := &G{intM: intM, nilM: md == "N", have: have, imp: map[string]bool{}}
+			if g.nilM {
+				g.rev = -1
+			}
 			if !r(g, m) {
 				continue
 			}
-			any = true
-			suffix := "_D"
-			if intM {
-				suffix = "_I"
+			for ; g.closers > 0; g.closers-- {
+				g.pf("}")
 			}
+			any = true
+			suffix := "_" + md
 			fn := "d_" + ident(m.Full()) + suffix
 			if g.typeOnly {
 				tg := grp(m.Pkg + "_dtypes")
@@ -1539,9 +1721,12 @@ func main() {
 			for k := range g.imp {
 				gr.imports[k] = true
 			}
-			if intM {
+			switch md {
+			case "I":
 				e.i = fn
-			} else {
+			case "N":
+				e.nl = fn
+			default:
 				e.d = fn
 			}
 		}
@@ -1557,6 +1742,9 @@ func main() {
 			e.i = "nil"
 		}
 		e.arity = m.Index()
+		if m.N < 0 && m.RecvN < 0 {
+			e.n, e.arity = 1, 2 // base members Flap / FlapMap / FlatFlapMap / With
+		}
 		if m.TParams-1 > e.arity && strings.Contains(m.Name, "Method") {
 			e.arity = m.TParams - 1
 		}
@@ -1593,7 +1781,11 @@ func main() {
 		if !strings.HasSuffix(name, "_dtypes") {
 			src.WriteString("var Members = []Member{\n")
 			for _, e := range gr.entries {
-				fmt.Fprintf(&src, "\t{Family: %q, Name: %q, N: %d, Arity: %d, D: %s, I: %s},\n", e.fam, e.name, e.n, e.arity, e.d, e.i)
+				nl := e.nl
+				if nl == "" {
+					nl = "nil"
+				}
+				fmt.Fprintf(&src, "\t{Family: %q, Name: %q, N: %d, Arity: %d, D: %s, I: %s, Nil: %s},\n", e.fam, e.name, e.n, e.arity, e.d, e.i, nl)
 			}
 			src.WriteString("}\n")
 		}
